@@ -48,6 +48,10 @@ class BaseCurve(Intface_BaseCurve):
             return False
         if (self.ctrlpoints is None) ^ (other.ctrlpoints is None):
             return False
+        if self.ctrlpoints is None:  # No function to compare: same data
+            if self.knotvector != other.knotvector:
+                return False
+            return self.weights == other.weights
         if self.weights is not None or other.weights is not None:
             # N0/W0 == N1/W1 iff N0*W1 == N1*W0, which are polynomial curves
             numa, dena = self.fraction()
